@@ -29,6 +29,15 @@ MonBuffer(p, a, ok) ==
 MonRejectUnchanged(p, a, ok, q) ==
   (IsUpdate(a) /\ ~ok) => q.cfg = p.cfg /\ q.flg = p.flg /\ q.rest = p.rest
 
+(* frame condition of an ACCEPTED update: "may update only the keys ..." - every key / flag that the
+   request does not name keeps its value (inside the projected window key by key, outside it through
+   the digest `rest` of all other config values, flags and permission bits) *)
+MonFrame(p, a, ok, q) ==
+  (IsUpdate(a) /\ ok) =>
+    /\ \A k \in Keys(p) \ Touched(p, a) : q.cfg[k] = p.cfg[k]
+    /\ \A f \in Flags(p) \ Touched(p, a) : q.flg[f] = p.flg[f]
+    /\ q.rest = p.rest
+
 (* positive half: what the two keepers MAY do (well-formed requests only) *)
 Allowed(p, a, roles) ==
   \/ MK \in roles
